@@ -447,4 +447,173 @@ Proof.
 Qed.
 End OneDirty.
 
+(* ------------------------------------------------------------------ running a command body after FindLayers *)
+Lemma hs_state {A} (Iv : wpred) (m : M A) (Q : A -> Prop) s :
+  hs Iv false m Q -> Iv (s_w s) -> Iv (s_w (snd (m s))).
+Proof.
+  intros H HI. specialize (H s HI I). destruct (m s) as [[a| | | |] s']; cbn [snd]; tauto.
+Qed.
+
+Lemma with_layers_keeps (Iv : wpred) um body s :
+  Iv (s_w s) ->
+  (forall ld, LDI (skel (read_layer_files c (w_fs (s_w s)))) ld ->
+     check_inheritance (read_layer_files c (w_fs (s_w s))) = true -> hs Iv false (body ld) (fun _ => True)) ->
+  Iv (s_w (snd (with_layers c um body s))).
+Proof.
+  intros HI Hb. unfold with_layers, bind at 1, get_fs. cbv beta iota.
+  rewrite guard_k. destruct (base_set_up c (w_fs (s_w s))); [|exact HI].
+  unfold bind at 1. destruct (get_layers_spec c um s) as (o & E & Ho). rewrite E.
+  destruct o as [ld| | | |]; try exact HI.
+  destruct Ho as (HLD & HC & _). pose proof (hs_state Iv (body ld) _ s (Hb ld HLD HC) HI) as H.
+  unfold bind. destruct (body ld s) as [[ld'| | | |] s']; exact H.
+Qed.
+
+Lemma renormalize_keeps (Iv : wpred) ld : hs Iv false (renormalize ld) (fun _ => True).
+Proof.
+  unfold renormalize. destruct (normalize_order (ld_map ld)); [now apply hs_ret|].
+  intros s HI _. exact HI.
+Qed.
+
+(* ------------------------------------------------------------------ add *)
+Section AddCmd.
+Variables (f0 : fsT) (n b : bytes).
+Hypothesis Hc0 : fs_clean f0.
+Hypothesis Hn0 : nolink f0.
+
+Definition PAdd (v : option bytes) : Prop := v = None \/ v = Some b.
+Definition AddFacts : Prop :=
+  plain n /\ legal_name n = true /\ G f0 n = None /\ cfgbase f0 n = None /\ (b = [] \/ G f0 b <> None).
+Definition IvAdd (w : world) : Prop := w_fs w = f0 \/ (AddFacts /\ Inv1 f0 n PAdd w).
+
+Lemma add_start w : AddFacts -> w_fs w = f0 -> Inv1 f0 n PAdd w.
+Proof.
+  intros (_ & _ & _ & Hcb & _) E. unfold Inv1. rewrite E. split; [now apply IB_refl|]. split; [now left|auto].
+Qed.
+Lemma add_inv_of w : AddFacts -> IvAdd w -> Inv1 f0 n PAdd w.
+Proof. intros HF [E|[_ H]]; [now apply add_start|exact H]. Qed.
+
+Lemma add_mkdir_step e p r : AddFacts -> p = pa (Lc ++ n :: r) -> plains r ->
+  hs IvAdd false (fs_mkdir e p) (fun _ => True).
+Proof.
+  intros HF -> Pr. unfold fs_mkdir. apply hs_true, hoare_do_op. intros w w' HI _ E. right. split; [exact HF|].
+  destruct HF as (Pn & HF'). eapply (inv_mkdir f0 n PAdd Pn w w' n r); eauto; [apply add_inv_of; [|exact HI]|now left].
+  now split.
+Qed.
+Lemma add_write_text_step e p r x : AddFacts -> p = pa (Lc ++ n :: r) -> plains r -> r <> [] -> p <> cfgp n ->
+  hs IvAdd false (fs_write_text e p x) (fun _ => True).
+Proof.
+  intros HF -> Pr Hr Hne. apply hs_true, hoare_write_text. intros w w' HI _ E. right. split; [exact HF|].
+  pose proof HF as (Pn & _). eapply (inv_write_text f0 n PAdd Pn w w' r x); eauto. now apply add_inv_of.
+Qed.
+Lemma add_write_cfg_step e l : AddFacts -> l_path l = layer_path c n -> l_base l = b -> mounts_ok l ->
+  hs IvAdd false (write_layerfile e l) (fun _ => True).
+Proof.
+  intros HF Ep Eb (Hb & Hm & He). pose proof HF as (Pn & _). unfold write_layerfile.
+  rewrite (layerconfig_path_eq l n Ep Pn). apply hs_true.
+  apply (write_atomically_rule IvAdd (fun x w => Tv1 f0 n PAdd x w)); rewrite ?tmp_path_eq.
+  - intros w w' HI E. eapply tv_open; eauto. now apply add_inv_of.
+  - intros x ch w HT. now apply tv_append.
+  - intros x w HT. right. split; [exact HF|]. eapply tv_drop; eauto.
+  - intros w w' HT E. right. split; [exact HF|].
+    destruct (tv_rename f0 n PAdd Pn _ w w' HT E) as (H1 & H2 & H3). split; [exact H1|]. split; [|exact H3].
+    right. rewrite H2, layerfile_roundtrip by assumption. cbn [lf_base]. now rewrite Eb.
+  - intros x w [HT _]. right. now split.
+Qed.
+
+Lemma add_final w : IvAdd w -> gforest (G f0) -> gforest (G (w_fs w)).
+Proof.
+  intros [->|((Pn & Ln & Hg & Hcb & Hb) & (HI & HP & _))] HG; [exact HG|].
+  assert (Hout : forall x, x <> n -> G (w_fs w) x = G f0 x).
+  { intros x Hx. apply (G_out [n]); auto.
+    - apply (ib_clean _ _ _ HI).
+    - apply (ib_nolink _ _ _ HI).
+    - apply (ib_part _ _ _ HI).
+    - intros y [<-|[]]. exact Pn.
+    - intros [E|[]]. congruence. }
+  destruct (G_cases (w_fs w) n (ib_clean _ _ _ HI) (ib_nolink _ _ _ HI)) as [E|(_ & _ & _ & E)].
+  - apply (gforest_ext (G f0)); [|exact HG]. intros x. destruct (beq n x) eqn:Ex.
+    + apply beq_true in Ex. subst x. congruence.
+    + apply beq_false in Ex. symmetry. apply Hout. congruence.
+  - destruct HP as [HP|HP].
+    + apply (gforest_ext (G f0)); [|exact HG]. intros x. destruct (beq n x) eqn:Ex.
+      * apply beq_true in Ex. subst x. congruence.
+      * apply beq_false in Ex. symmetry. apply Hout. congruence.
+    + apply (gforest_ext (g_add (G f0) n b)); [|now apply gforest_add].
+      intros x. unfold g_add. destruct (beq n x) eqn:Ex.
+      * apply beq_true in Ex. subst x. congruence.
+      * apply beq_false in Ex. symmetry. apply Hout. congruence.
+Qed.
+
+Hypothesis Hcl0 : closed f0.
+
+Lemma plain_root : plain (bs "root"). Proof. apply plainb_spec. reflexivity. Qed.
+Lemma plain_bashrc : plain (bs ".bashrc"). Proof. apply plainb_spec. reflexivity. Qed.
+
+Lemma add_layer_keeps e ld cf :
+  LDI (skel (read_layer_files c f0)) ld ->
+  hs IvAdd false (add_layer e c ld n b cf) (fun _ => True).
+Proof.
+  intros [Hs HW]. unfold add_layer.
+  apply hs_guard_k. intros G0. apply andb_true_iff in G0 as [G1 G2].
+  apply test_name_free in G1 as (Hn & Ln & Hfree). apply test_name_opt in G2.
+  apply hs_guard_k. intros _. apply hs_get_fs_k. intros f. cbv zeta.
+  assert (Pn : plain n) by now apply legal_plain.
+  assert (Hg : forall x, g_of (ld_map ld) x = G f0 x) by (intros x; now apply skel_g).
+  assert (Hgn : G f0 n = None) by (rewrite <- Hg; now apply g_of_none).
+  assert (HF : AddFacts).
+  { split; [exact Pn|]. split; [exact Ln|]. split; [exact Hgn|]. split.
+    - destruct (G_cases f0 n Hc0 Hn0) as [_|(_ & _ & Hm & E)].
+      + (* not listed, or no readable layerconfig *)
+        rewrite G_eq in Hgn. rewrite Ln, andb_true_r in Hgn.
+        destruct (memb n (children f0 (pa Lc))) eqn:Em.
+        * rewrite load_base in Hgn by assumption. exact Hgn.
+        * unfold cfgbase. assert (fs_get f0 (pa (Lc ++ [n])) = None) as Ed.
+          { destruct (fs_get f0 (pa (Lc ++ [n]))) as [m0|] eqn:Ed; [|reflexivity].
+            apply fs_get_In in Ed. rewrite (lp_child Lc HLc f0 n m0 Pn Ed) in Em. discriminate. }
+          unfold cfgp. change (Lc ++ [n; lcf]) with (Lc ++ [n] ++ [lcf]). rewrite app_assoc.
+          rewrite (closed_none f0 (Lc ++ [n]) Hcl0 (plains_lp n Pn) Ed [lcf]); [reflexivity|].
+          constructor; [apply plain_lcf|constructor].
+      + congruence.
+    - destruct G2 as [->|(_ & l0 & E0)]; [now left|right]. rewrite <- Hg. intros E1. apply g_of_none in E1. congruence. }
+  match goal with |- hs _ _ (match ?bb with _ => _ end) _ => destruct bb as [[ms es]|] eqn:Ebasis end; [|apply hs_fail].
+  set (l := MkL n b ms es (layer_path c n) st_empty false false false false []).
+  assert (Hl : mounts_ok l).
+  { unfold mounts_ok. cbn [l l_base l_mounts l_exports]. split.
+    - destruct b as [|b0 br]; [now left|right]. destruct G2 as [G2|(Lb & _)]; [discriminate|].
+      apply legal_tok; [exact Lb|discriminate].
+    - destruct (negb (beq cf []) || beq b []).
+      + destruct (default_layerinfo c f cf) as [lf|] eqn:Ed; [|discriminate]. injection Ebasis as <- <-.
+        unfold default_layerinfo in Ed. destruct (if is_file f _ then read_file f _ else None) as [content|]; [|discriminate].
+        destruct (lf_errors (read_layerfile content)); [|discriminate]. injection Ed as <-.
+        destruct (read_layerfile_canon content) as (_ & H1 & H2). now split.
+      + destruct b as [|b0 br]; [discriminate|]. destruct (lm_get (ld_map ld) (b0 :: br)) as [pl|] eqn:Epl; [|discriminate].
+        injection Ebasis as <- <-. destruct (HW pl (lm_get_in _ _ _ Epl)) as (_ & H1 & H2). now split. }
+  fold l.
+  apply hs_seq.
+  { apply (add_mkdir_step e _ []); [exact HF| |constructor]. cbn [l l_path]. now rewrite layer_path_eq. }
+  apply hs_seq; [apply add_write_cfg_step; auto|].
+  apply hs_seq.
+  { destruct Hbsr as (H1 & _). apply (add_mkdir_step e _ bsr); [exact HF| |exact H1]. now apply build_path_eq. }
+  apply hs_seq.
+  { destruct Hbsr as (H1 & H2 & _). destruct b as [|b0 br].
+    - assert (Er : pathjoin [build_path c l; bs "root"] = pa (Lc ++ n :: bsr ++ [bs "root"])).
+      { rewrite (build_path_eq l n) by auto. rewrite pathjoin_pa1; [now rewrite <- app_assoc|now apply plains_dirty|apply plain_root]. }
+      assert (Pr1 : plains (bsr ++ [bs "root"])) by (apply plains_app; split; [exact H1|constructor; [apply plain_root|constructor]]).
+      apply hs_seq; [apply (add_mkdir_step e _ (bsr ++ [bs "root"])); auto|].
+      rewrite Er. rewrite pathjoin_pa1; [|now apply plains_dirty|apply plain_bashrc].
+      rewrite <- app_assoc. cbn [app]. rewrite <- app_assoc. cbn [app].
+      apply (add_write_text_step e _ (bsr ++ [bs "root"; bs ".bashrc"])); auto.
+      + apply plains_app. split; [exact H1|constructor; [apply plain_root|constructor; [apply plain_bashrc|constructor]]].
+      + destruct bsr; discriminate.
+      + unfold cfgp. intros E. apply pa_inj in E.
+        * apply app_inv_head in E. injection E as E. apply (f_equal (@length _)) in E. rewrite app_length in E. cbn in E. lia.
+        * apply plains_dirty; [exact Pn|]. apply plains_app. split; [exact H1|constructor; [apply plain_root|constructor; [apply plain_bashrc|constructor]]].
+        * apply plains_dirty; [exact Pn|constructor; [apply plain_lcf|constructor]].
+    - apply hs_seq.
+      + destruct Hwsr as (W1 & _). apply (add_mkdir_step e _ wsr); [exact HF| |exact W1]. now apply work_path_eq.
+      + destruct Husr as (U1 & _). apply (add_mkdir_step e _ usr); [exact HF| |exact U1]. now apply upper_path_eq. }
+  apply renormalize_keeps.
+Qed.
+End AddCmd.
+
 End WithCfg.
